@@ -5,7 +5,7 @@
    1820  to_xml_attribute of Point / Stretch / Padding and from_xml_attribute of the result *)
 From Coq Require Import List ZArith QArith Bool.
 From PV Require Import lib.Sx lib.Str lib.Result.
-From PV Require Import model.Geometry model.Positioning model.DfxpTree model.DfxpClean spec.SpecGeom spec.SpecPos.
+From PV Require Import model.Geometry model.Positioning model.DfxpTree model.DfxpClean spec.SpecGeom spec.SpecPos spec.SpecPos7.
 From PV Require Import extract.OrCommon extract.OrGeom extract.OrPos.
 Import ListNotations.
 Open Scope Z_scope.
@@ -25,15 +25,6 @@ Definition of_xp (p : xp) : sx := SL [of_opt of_rid (xp_region p); of_list of_xi
 Definition of_xdiv (d : xdiv) : sx := SL [of_opt of_rid (xd_region d); of_list of_xp (xd_ps d)].
 Definition of_xdoc (d : xdoc) : sx :=
   SL [of_list (fun kv => SL [of_rid (fst kv); of_attrs (snd kv)]) (x_regions d); of_list of_xdiv (x_divs d)].
-
-(* inline positioning: the layout get_positioning_info picks for each div / p / span-with-layout *)
-Definition inline_cap (g l : option layout) (c : ncap) : list (option layout) :=
-  dfxp_choice g l (nc_layout c) None
-  :: flat_map (fun n => if style_start (n_kind n) && opt_layout_truthy (n_layout n)
-                        then [dfxp_choice g l (nc_layout c) (n_layout n)] else []) (nc_nodes c).
-Definition inline_lang (g : option layout) (lg : nlang) : list (option layout) :=
-  dfxp_choice g (nl_layout lg) None None :: flat_map (inline_cap g (nl_layout lg)) (nl_caps lg).
-Definition inline_layouts (s : nset) : list (option layout) := flat_map (inline_lang (ns_layout s)) (ns_langs s).
 
 Definition req7 (code : Z) (arg : sx) : sx :=
   match code, arg with
